@@ -111,7 +111,7 @@ def lookup_case(draw):
     start = draw(st.sampled_from(STARTS))
     step = draw(st.sampled_from(STEPS))
     n = draw(st.integers(1, 60))
-    built = draw(st.sampled_from(["range_dim", "plain"]))
+    built = draw(st.sampled_from(["range_dim", "plain", "plain", "int_axis"]))
     qi = draw(st.integers(0, n - 1))
     qkind = draw(st.sampled_from(["on", "ulp_below", "ulp_above", "mid", "first", "last", "below", "above", "just_above_last", "free"]))
     frac = draw(st.floats(0.01, 0.99))
@@ -142,6 +142,13 @@ def check_lookup(spec, ctx):
         if coords.size == 0:
             return
         arr = xr.DataArray(np.zeros(coords.size), dims=("time",), coords={"time": var})
+    elif spec["built"] == "int_axis":
+        # integer-typed coordinates (range(), np.arange) including negative ones; queries stay real numbers
+        istart, istep = int(round(start)) - 5, max(1, int(round(step)))
+        icoords = np.arange(istart, istart + n * istep, istep, dtype=np.int64 if n % 2 else np.int32)
+        arr = xr.DataArray(np.zeros(n), dims=("time",), coords={"time": icoords})
+        coords = icoords.astype(float)
+        step = float(istep)
     else:
         coords = np.array([start + i * step for i in range(n)])
         arr = xr.DataArray(np.zeros(n), dims=("time",), coords={"time": coords})
